@@ -49,6 +49,19 @@ def namedFmt (n : String) : Option (Nat × Format) :=
   else if n = "f24" then some (3, ⟨255, 255, 255, 0, 8, 16⟩)
   else none
 
+/-- `raw` / `x` / `rich` (the standard lists) or an explicit list `enc:raw,pos,rich,x,copyrect` in
+the order it is sent -/
+def parseEncs (tok : String) : Option (List Enc) :=
+  if tok = "raw" then some ClientKind.raw.encs
+  else if tok = "x" then some ClientKind.x.encs
+  else if tok = "rich" then some ClientKind.rich.encs
+  else if tok.startsWith "enc:" then
+    ((tok.drop 4).toString.splitOn ",").mapM fun n =>
+      if n = "raw" then some Enc.raw else if n = "copyrect" then some .copyRect
+      else if n = "x" then some .xCursor else if n = "rich" then some .richCursor
+      else if n = "pos" then some .pointerPos else none
+  else none
+
 def insertSorted (x : Nat × ClientKind) : List (Nat × ClientKind) → List (Nat × ClientKind)
   | [] => [x]
   | y :: ys => if x.1 ≤ y.1 then x :: y :: ys else y :: insertSorted x ys
@@ -131,7 +144,7 @@ def obsLine (bpp : Nat) (o : UpdObs) : String :=
   if !o.res then head ++ " closed" else
   let sh := match o.shape with | some m => fmtShape m | none => "-"
   let ps := match o.pos with | some m => s!"{be16At m 0},{be16At m 2}" | none => "-"
-  head ++ s!" shape={sh} pos={ps} cov={hex16 (hashRgn o.upd)} pic={hex16 (hashPx o.cbpp o.pic)}"
+  head ++ s!" shape={sh} pos={ps} cov={hex16 (hashRgn o.upd)} pic={hex16 (hashPx o.cbpp o.pic)} ccov={hex16 (hashRgn o.copyRgn)}"
 
 def alive (s : Sess) (id : Nat) : Bool := s.clients.any (fun c => c.id == id)
 
@@ -168,16 +181,26 @@ def dstep (v : Variant) (st : DState) (toks : List String) : DState × List Stri
         | some (b, f) => if b == s.scr.bpp && f == s.scr.fmt then some none else some (some (f, b))   -- PF_EQ: rfbTranslateNone
         | none => none
       | _ => none
-    match nat? id, (if kind = "raw" then some ClientKind.raw else if kind = "x" then some .x else if kind = "rich" then some .rich else none), tf with
-    | some id, some k, some tf =>
+    match nat? id, parseEncs kind, tf with
+    | some id, some l, some tf =>
       if id ≥ 4 || st.used.any (fun u => u.1 == id) then (st, ["bad-op"]) else
-      ({ st with sess := some (newClient s id k tf), used := insertSorted (id, k) st.used }, ["ok"])
+      ({ st with sess := some (newClient v s id l tf), used := insertSorted (id, .raw) st.used }, ["ok"])
     | _, _, _ => (st, ["bad-op"])
+  | some s, ["copy", x1, y1, x2, y2, dx, dy] =>
+    match nat? x1, nat? y1, nat? x2, nat? y2, parseInt? dx, parseInt? dy with
+    | some x1, some y1, some x2, some y2, some dx, some dy =>
+      -- destination and source rectangle inside the screen
+      if x1 ≥ x2 || y1 ≥ y2 || x2 > s.scr.w || y2 > s.scr.h || (x1 : Int) - dx < 0 || (y1 : Int) - dy < 0 ||
+         (x2 : Int) - dx > s.scr.w || (y2 : Int) - dy > s.scr.h then (st, ["bad-op"]) else
+      match doCopy s ⟨x1, y1, x2, y2⟩ dx dy with
+      | some s' => ({ st with sess := some s' }, ["ok"])
+      | none => ({ st with oob := true }, ["model-oob"])
+    | _, _, _, _, _, _ => (st, ["bad-op"])
   | some s, ["setenc", id, kind] =>
-    match nat? id, (if kind = "raw" then some ClientKind.raw else if kind = "x" then some .x else if kind = "rich" then some .rich else none) with
-    | some id, some k =>
+    match nat? id, parseEncs kind with
+    | some id, some l =>
       if !alive s id then (st, ["bad-op"]) else
-      ({ st with sess := some (setEncodings v s id k) }, ["ok"])
+      ({ st with sess := some (setEncodings v s id l) }, ["ok"])
     | _, _ => (st, ["bad-op"])
   | some s, ["ptr", id, x, y, m] =>
     match nat? id, nat? x, nat? y, nat? m with
